@@ -192,6 +192,20 @@ theorem inv_inv (m : Mat K) (h : Matrix.Det m ≠ 0) : Matrix.Inv (Matrix.Inv m)
     rw [det_inv m h]; exact one_div_ne_zero h
   exact (inv_unique (Matrix.Inv m) m hd (mul_inv m h)).symm
 
+/-- the inverse of a product is the product of the inverses in the opposite order (undoing a composed
+view/transform stack) -/
+theorem inv_of_mul (m q : Mat K) (hm : Matrix.Det m ≠ 0) (hq : Matrix.Det q ≠ 0) :
+    Matrix.Inv (Matrix.Mul m q) = Matrix.Mul (Matrix.Inv q) (Matrix.Inv m) := by
+  have hd : Matrix.Det (Matrix.Mul m q) ≠ 0 := by rw [det_mul]; exact mul_ne_zero hm hq
+  refine (inv_unique (Matrix.Mul m q) _ hd ?_).symm
+  rw [mul_assoc, ← mul_assoc (Matrix.Inv m) m q, inv_mul m hm, identity_mul, inv_mul q hq]
+
+/-- an invertible matrix is injective on points: distinct points never collapse -/
+theorem dot_injective (m : Mat K) (hm : Matrix.Det m ≠ 0) (p q : Pt K)
+    (h : Matrix.Dot m p = Matrix.Dot m q) : p = q := by
+  have := congrArg (Matrix.Dot (Matrix.Inv m)) h
+  rwa [inv_dot m p hm, inv_dot m q hm] at this
+
 theorem pos_translate (x y : K) : Matrix.Pos (Matrix.Translate ident x y) = (x, y) := by
   simp [Matrix.Pos, Matrix.Translate, Matrix.Mul, ident]
 
